@@ -106,11 +106,15 @@ def inj_binding_garbage(src, rng):
     return src[:m.start()] + rng.choice([" ) ", " a b ", " ] ", " # ", " 1 2 "]) + src[m.start():]
 
 
+LAST_LINE = [None]     # line on which the last attribute injection was made (the diagnostic must be there)
+
+
 def _insert_attr(src, rng, text):
     ms = _start_tags(src)
     if not ms:
         return None
     m = ms[rng.below(len(ms))]
+    LAST_LINE[0] = src[:m.end()].count("\n")
     return src[:m.end()] + " " + text + src[m.end():]
 
 
@@ -128,7 +132,9 @@ def inj_duplicate_attr(src, rng):
 
 
 def inj_children_childless(src, rng):
-    return src + rng.choice(['<include src="a">x</include>', '<import src="a"><view/></import>', '<wxs module="zm" src="a">exports.a=1</wxs>'])
+    return src + rng.choice(['<include src="a">x</include>', '<import src="a"><view/></import>', '<wxs module="zm" src="a">exports.a=1</wxs>',
+                             '<include src="a"><!-- c --><view/></include>', '<slot><!-- c -->text</slot>', '<import src="b"><!-- c --><view/></import>',
+                             '<template is="t"><!-- c -->x<view/></template>', '<slot><view/><!-- c --></slot>'])
 
 
 def inj_missing_required(src, rng):
@@ -166,15 +172,18 @@ def run(chk):
     for i in range(n):
         r = rng.fork(("t", i))
         g = tg.TmplGen(r, max_depth=3)
-        srcs.append(tg.Printer(r.fork("p"), vary=(i % 2 == 1)).template(g.template()))
+        body = tg.Printer(r.fork("p"), vary=(i % 2 == 1)).template(g.template())
+        # lines ending in something that starts like an entity (a bare `&` is plain text): position bookkeeping must survive them
+        srcs.append(r.choice(["", "", "R&D\nAT&T\n", "a &\nb\n", "x &\n😀&\n\n"]) + body)
     inputs = [("clean", None, s) for s in srcs]
     for i, s in enumerate(srcs):
         r = rng.fork(("inj", i))
         for name, f, kinds, level in INJECTIONS:
             if r.chance(1, 2) or quick is False:
+                LAST_LINE[0] = None
                 m = f(s, r)
                 if m is not None and m != s:
-                    inputs.append(("inject", (name, kinds, level), m))
+                    inputs.append(("inject", (name, kinds, level, LAST_LINE[0]), m))
     for i in range(300 if quick else 6000):
         r = rng.fork(("fz", i))
         inputs.append(("fuzz", None, mutate.mutate(r, srcs[r.below(len(srcs))]) if i % 3 else mutate.raw(r, 60)))
@@ -201,10 +210,14 @@ def run(chk):
                     chk.violation("input", f"well-formed template gets {kind_name(bad[0][1])} (level {bad[0][2]}) at {bad[0][3]}:{bad[0][4]}: {bad[0][7]}",
                                   template=s[:3000], diagnostic=bad[0])
         elif kind == "inject":
-            name, kinds, level = meta
+            name, kinds, level, line = meta
             chk.case(("inject", name, s), nontrivial=True)
             per_class[name] = per_class.get(name, 0) + 1
             hit = [w for w in ws if kind_name(w[1]) in kinds and w[2] >= level]
+            if hit and line is not None and not any(w[3] == line for w in hit):
+                ninj += 1
+                if ninj <= 6:
+                    chk.violation("input", f"defect '{name}' was injected on line {line} but is reported on line {hit[0][3]}", template=s[:3000], defect=name, diagnostic=hit[0])
             if not hit:
                 ninj += 1
                 if ninj <= 6:
